@@ -315,7 +315,11 @@ func planFor(prop string) *PropPlan {
 	p := &PropPlan{ID: prop, Level: "exploration", Assume: commonAssume}
 	switch prop {
 	case "C01", "C02", "C13":
-		p.Modes = []Mode{{Name: "conc", Quick: 32, Deep: 800,
+		quick := 32
+		if prop == "C13" {
+			quick = 72 // reader samples are cheap; writer kind x layout x reader kind needs more of them
+		}
+		p.Modes = []Mode{{Name: "conc", Quick: quick, Deep: 800,
 			Run:    func(bin string, seed uint64) *RunReport { return runConcSample(bin, prop, seed, false) },
 			Replay: ReplayConc}}
 		p.Rule = "per sample: a seeded pre-state (sequential history) and one batch of 2-6 concurrent ergo processes; from the same snapshot the batch is executed under seeded random and sticky schedules and under EVERY single-preemption schedule of the designated processes (process A runs to its k-th .ergo system call, everybody else runs to completion, A resumes; k = 0..K); evaluations = batch executions; a sample is non-trivial when at least one batch ran; distinct = distinct trace digests of samples; distinct_interleavings counts distinct context-switch sequences (process role x call class)"
